@@ -6,7 +6,11 @@ package props
 // one Ethereum transaction and reads back which inner calls succeeded.
 
 import (
+	"encoding/base64"
+
 	"fmt"
+	"github.com/cosmos/cosmos-sdk/crypto/keys/ed25519"
+	stakingpc "github.com/haqq-network/haqq/precompiles/staking"
 	"math/big"
 	"sort"
 	"strings"
@@ -38,6 +42,8 @@ var (
 	pxOther  = chain.Acct("px-other")
 	pxVest   = chain.Acct("px-vest") // clawback vesting account: 1,000,000 ISLM free + 500,000 ISLM locked for five and unvested for ten years
 )
+
+var pxNewValKey = ed25519.GenPrivKeyFromSecret([]byte("px-new-validator"))
 
 func pxFrameAcc(i int) sdk.AccAddress { return sdk.AccAddress(evmasm.FrameAddr(i).Bytes()) }
 
@@ -163,13 +169,13 @@ type pxGenOpts struct {
 	MaxFrames  int
 }
 
-var pxTxMethods = []string{"delegate", "delegate", "undelegate", "redelegate", "cancelUnbonding", "withdraw", "withdraw", "setWithdraw", "claim"}
+var pxTxMethods = []string{"delegate", "delegate", "undelegate", "redelegate", "cancelUnbonding", "withdraw", "withdraw", "setWithdraw", "claim", "createValidator", "approve"}
 var pxQueryMethods = []string{"balances", "delegation"}
 
 func genPxPre(t *rapid.T, methods []string) *PxPre {
 	p := &PxPre{Method: rapid.SampledFrom(methods).Draw(t, "method")}
 	switch p.Method {
-	case "delegate", "undelegate", "redelegate", "cancelUnbonding", "delegation":
+	case "delegate", "undelegate", "redelegate", "cancelUnbonding", "delegation", "createValidator", "approve":
 		p.Pre = "staking"
 	case "balances":
 		p.Pre = "bank"
@@ -181,6 +187,9 @@ func genPxPre(t *rapid.T, methods []string) *PxPre {
 	p.Val2 = rapid.IntRange(0, 2).Draw(t, "val2")
 	p.Amt = rapid.SampledFrom([]string{"1", "1000", "100000", "399000", "400000", "401000", "800000", "801000", "5000000"}).Draw(t, "amt")
 	p.To = rapid.SampledFrom([]string{"w", "w", "signer", "self", "third"}).Draw(t, "to")
+	if p.Method == "createValidator" {
+		p.Who = "signer" // only the transaction's origin may create its own validator
+	}
 	return p
 }
 
@@ -288,6 +297,15 @@ func pxCalldata(n *chain.Node, p *PxPre, self common.Address) (common.Address, [
 		return pabi.StakingAddr, pabi.Pack("staking", "cancelUnbondingDelegation", who, val, amt, big.NewInt(h))
 	case "delegation":
 		return pabi.StakingAddr, pabi.Pack("staking", "delegation", who, val)
+	case "createValidator":
+		one := func(s string) *big.Int { return sdkmath.LegacyMustNewDecFromStr(s).BigInt() }
+		return pabi.StakingAddr, pabi.Pack("staking", "createValidator",
+			stakingpc.Description{Moniker: "px", Identity: "", Website: "", SecurityContact: "", Details: ""},
+			stakingpc.Commission{Rate: one("0.10"), MaxRate: one("0.20"), MaxChangeRate: one("0.01")},
+			big.NewInt(1), who, sdk.ValAddress(who.Bytes()).String(), base64.StdEncoding.EncodeToString(pxNewValKey.PubKey().Bytes()), amt)
+	case "approve":
+		// the owner (who) lets the address named by To delegate/undelegate up to amt on its behalf
+		return pabi.StakingAddr, pabi.Pack("staking", "approve", pxAddrOf(p.To, self), amt, []string{"/cosmos.staking.v1beta1.MsgDelegate", "/cosmos.staking.v1beta1.MsgUndelegate"})
 	case "withdraw":
 		return pabi.DistributionAddr, pabi.Pack("distribution", "withdrawDelegatorRewards", who, val)
 	case "setWithdraw":
